@@ -412,6 +412,20 @@ def check_profiles(ctx, pairs, quick):
         if N1 > 0 and acc_defined:
             acc = teneva.accuracy(teneva.mul(As, 3.), As)
             ctx.check(abs(acc - 2.) <= 1e-7, 'algebra:accuracy-scaled', 'accuracy(3 Y, Y) = %r, exact 2 (profile %s %s)' % (acc, kind, s), case=case)
+        # tensors of very different magnitude: accuracy(2^k A, B) = 2^k sqrt(N1 / N2) (1 + O(2^-k)), a finite double for
+        # every k used here (2^k spread evenly over the cores, every core entry and every dense entry representable); the
+        # routine saturates (1e299) only when its two exponents differ by MORE than 500, i.e. for ratios above 2^500
+        if N1 > 0 and N2 > 0 and t % 2 == 0:
+            L_ = 0.5 * np.log2(N1 / N2)
+            for k_ in (500 - int(np.ceil(L_)), 499 - int(np.ceil(L_)), 470, 300):
+                lref = k_ + L_
+                if lref > 499.9:
+                    continue
+                sk = [k_ // d + (1 if j < k_ % d else 0) for j in range(d)]
+                Ak = [G * 2.0 ** e_ for G, e_ in zip(A, sk)]
+                acc = teneva.accuracy(Ak, B)
+                ctx.check(acc > 0 and np.isfinite(acc) and abs(np.log2(acc) - lref) <= 1e-7, 'algebra:accuracy-ratio',
+                          'accuracy(2^%d A, B) = %r, exact 2^%d * sqrt(%d / %d) = 2^%.6f (a finite double)' % (k_, acc, k_, N1, N2, lref), case=case)
 
 
 def check_shapes(ctx, quick):
